@@ -761,6 +761,57 @@ func (g *genState) genCase(id string) {
 				}
 			}
 		}
+		if len(g.iters) > 0 && r.Chance(g.weight(4, "C10 C08", 4)) {
+			// the collector scans a tombstone, the object is re-created before the collector's write transaction
+			// (nothing is left for it to delete): it must still finish its transaction - the next writer of the table
+			// would hang on a table lock that is never released
+			var tb, any int = 0, -1
+			for id := 0; id < g.nextIter; id++ {
+				if t, ok := g.iters[id]; ok && !g.fresh[id] {
+					tb, any = t, id
+					break
+				}
+			}
+			if any >= 0 {
+				catchUp := func() {
+					for id := 0; id < g.nextIter; id++ {
+						if t, ok := g.iters[id]; ok && t == tb && !g.fresh[id] {
+							g.emit("next %d fresh all", id)
+							g.itSnap[id] = len(g.snaps)
+						}
+					}
+				}
+				txn := func(op string, o *Obj, id []byte) {
+					g.emit("begin %d", tb)
+					g.locked = map[int]bool{tb: true}
+					g.sh.begin(g.locked)
+					if op == "insert" {
+						g.emit("insert %d %s", tb, g.objArgs(o))
+						g.sh.modify(tb, "insert", 0, o, true)
+					} else {
+						g.emit("delete %d %s", tb, hx.Hex(id))
+						g.sh.delete(tb, false, 0, id, true)
+					}
+					g.emit("commit %d", g.nextSnap)
+					g.sh.commit()
+					g.snaps = append(g.snaps, g.nextSnap)
+					g.nextSnap++
+				}
+				catchUp()
+				g.emit("gcscan")
+				g.emit("gcapply") // the graveyard of the table is empty now
+				o := g.newObj()
+				txn("insert", o, nil)
+				txn("delete", nil, o.ID)
+				catchUp()
+				g.emit("gcscan")
+				txn("insert", o, nil)
+				g.emit("gcapply")
+				o2 := g.newObj()
+				txn("insert", o2, nil)
+				g.emit("q fresh %d gnum", tb)
+			}
+		}
 		if r.Chance(g.weight(3, "C10 C05", 5)) {
 			g.emit("regdup")
 		}
